@@ -142,6 +142,17 @@ Definition parse_index_loop (toks:list string) : option (string * string * strin
   do l <- expect "}" l; do l <- expect "}" l;
   match l with [] => Some (src, dst, ty, fs) | _ => None end.
 
+(** ... and with index and value:  for I, V := range SRC { DST[I] = T{F: V.G, ...} }  (DST made with len(SRC)) *)
+Definition parse_index_value_loop (toks:list string) : option (string * string * string * list (string * string)) :=
+  do l <- expect "for" toks; do (i, l) <- name l; do l <- expect "," l; do (v, l) <- name l;
+  do l <- expect ":" l; do l <- expect "=" l; do l <- expect "range" l;
+  do (src, l) <- name l; do l <- expect "{" l;
+  do (dst, l) <- name l; do l <- expect "[" l; do l <- expect i l; do l <- expect "]" l; do l <- expect "=" l;
+  do (ty, l) <- name l; do l <- expect "{" l;
+  do (fs, l) <- parse_fields v l;
+  do l <- expect "}" l; do l <- expect "}" l;
+  match l with [] => Some (src, dst, ty, fs) | _ => None end.
+
 (** ** meaning of a field assignment from bpf.RawInstruction{Op,Jt,Jf,K} to syscall.SockFilter{Code,Jt,Jf,K} *)
 Fixpoint assoc_s (l:list (string * string)) (k:string) : option string :=
   match l with
@@ -189,7 +200,7 @@ Definition sockfilter_fields (f:skfun) : option (list (string * string)) :=
   | [param], false, [SAssign true (EId d) (EConv mk [_; EConv ln [EId param']]); SUnknown src; SReturn [EId d']] =>
     (* filled in place: one element per element of the parameter *)
     if String.eqb mk "make" && String.eqb ln "len" && String.eqb param' param && String.eqb d d' then
-      match parse_index_loop (tokens src) with
+      match (match parse_index_loop (tokens src) with Some r => Some r | None => parse_index_value_loop (tokens src) end) with
       | Some (s, dst, ty, fs) =>
         if String.eqb s param && String.eqb dst d && String.eqb ty "syscall.SockFilter" then Some fs else None
       | None => None
